@@ -139,14 +139,20 @@ fn body() {
             mode = Mode::Single;
         }
     }
+    // (C17, multi-thread slice) the block size the entry point is called with may be a scripted invalid one
+    let bad_block = w.faults.iter().find_map(|f| match f {
+        crate::workload::Fault::BadBlockSize { block } => Some(usize::try_from(*block).unwrap_or(usize::MAX)),
+        _ => None,
+    });
+    let call_block = bad_block.unwrap_or(w.block);
     let res = match mode {
         Mode::Single => {
             let cfg = w.cfg.build(false, w.workers, w.block);
-            flacenc::encode_with_fixed_block_size(&cfg, &mut src, w.block)
+            flacenc::encode_with_fixed_block_size(&cfg, &mut src, call_block)
         }
         Mode::Par => {
             let cfg = w.cfg.build(true, w.workers, w.block);
-            flacenc::encode_with_fixed_block_size(&cfg, &mut src, w.block)
+            flacenc::encode_with_fixed_block_size(&cfg, &mut src, call_block)
         }
         Mode::Framewise => framewise(&w, &mut src),
     };
@@ -171,7 +177,13 @@ fn body() {
         reported: src.reported,
         handed_md5,
         handed_len: src.handed.len(),
-        fired: src.fired.clone(),
+        fired: {
+            let mut f = src.fired.clone();
+            if bad_block.is_some() {
+                f.push("bad_block_size");
+            }
+            f
+        },
     };
     OUT.with(|o| *o.borrow_mut() = Some(out));
 }
